@@ -269,6 +269,16 @@ def c10_scenario(rep, binary, workdir, rng, attempt=0):
                 serial_of[i] = serials[0]
         rep.cls("system:records")
     known = set(serial_of.values())
+    # which receiver's copy arrived first, per merged record: the interleavings of the receiver tasks actually observed
+    rx_of = {v: k for k, v in serial_of.items()}
+    for k, l in enumerate(lines):
+        try:
+            o = json.loads(l)
+        except ValueError:
+            continue
+        ss = [m.get("serial") for m in o.get("metadata", [])]
+        if len(ss) >= 2 and all(x in rx_of for x in ss):
+            rep.cls("system:arrival-order:" + ">".join("rx%d" % rx_of[x] for x in ss))
     for fr, serials in per_frame.items():
         if len(set(serials)) != len(serials):
             rep.violation("C10:system:duplicated", f"reception of {fr} by one receiver appears in two records: serials {serials}", replay)
